@@ -142,6 +142,7 @@ func (o *Overlay) TransmitMsg(onetMsg *ProtocolMsg, io MessageProxy) error {
 	// over (or the last instance using the tree).
 	tree := o.treeStorage.getAndRefresh(onetMsg.To.TreeID)
 	if tree == nil {
+		verifPoint("tm.miss", onetMsg)
 		// request anyway because we need to store the pending message
 		// the following routine will take care of requesting once
 		err := o.requestTree(onetMsg.ServerIdentity, onetMsg, io)
@@ -150,6 +151,7 @@ func (o *Overlay) TransmitMsg(onetMsg *ProtocolMsg, io MessageProxy) error {
 		}
 		return nil
 	}
+	verifPoint("tm.found", onetMsg)
 
 	o.transmitMux.Lock()
 	defer o.transmitMux.Unlock()
@@ -251,6 +253,7 @@ func (o *Overlay) checkPendingMessages(t *Tree) {
 	// This goroutine has no recover because the underlying code should never panic
 	// and TransmitMsg does its own recovering
 	go func() {
+		verifPoint("cpm.start", t)
 		o.pendingMsgLock.Lock()
 
 		var newPending []pendingMsg
@@ -274,6 +277,7 @@ func (o *Overlay) checkPendingMessages(t *Tree) {
 				continue
 			}
 		}
+		verifPoint("cpm.done", t)
 	}()
 }
 
@@ -320,6 +324,7 @@ func (o *Overlay) savePendingMsg(onetMsg *ProtocolMsg, io MessageProxy) {
 // io is the wrapper to use to send the message, it can be nil.
 func (o *Overlay) requestTree(si *network.ServerIdentity, onetMsg *ProtocolMsg, io MessageProxy) error {
 	o.savePendingMsg(onetMsg, io)
+	verifPoint("rt.parked", onetMsg)
 
 	if tree := o.treeStorage.Get(onetMsg.To.TreeID); tree != nil {
 		// the tree has been stored (and the pending messages flushed) between
@@ -327,6 +332,7 @@ func (o *Overlay) requestTree(si *network.ServerIdentity, onetMsg *ProtocolMsg, 
 		o.checkPendingMessages(tree)
 		return nil
 	}
+	verifPoint("rt.recheck-miss", onetMsg)
 
 	// try to prepare the message before locking the storage
 	msg, err := io.Wrap(nil, &OverlayMsg{
@@ -340,9 +346,11 @@ func (o *Overlay) requestTree(si *network.ServerIdentity, onetMsg *ProtocolMsg, 
 		// request already sent
 		return nil
 	}
+	verifPoint("rt.unregistered", onetMsg)
 
 	// register the tree as known (can be stored)
 	o.treeStorage.Register(onetMsg.To.TreeID)
+	verifPoint("rt.registered", onetMsg)
 
 	// no need to record sentLen because Overlay uses Server's CounterIO
 	_, err = o.server.Send(si, msg)
